@@ -392,6 +392,26 @@ func (g *Gen) havocLocation(st *State, env *Env, loc string) error {
 		g.havocTag(st, tag)
 		return nil
 	}
+	if loc == "fresh-objects" {
+		// the callee writes (through its arguments) only objects the CALLER allocated after its own entry: every heap tag is
+		// havocked on objects at or above the caller's entry frontier and kept on the older ones.  Used for decoders that fill
+		// a caller-local value passed behind an interface; the contract is an assumption about the callee.
+		var tl []string
+		for t, srt := range g.sc.tagSort {
+			if strings.HasPrefix(srt, "(Array Ref ") && !strings.HasPrefix(t, "G!") && !strings.HasPrefix(t, "V!") && !strings.Contains(t, ":") {
+				tl = append(tl, t)
+			}
+		}
+		sortStrings(tl)
+		for _, t := range tl {
+			cur := g.sc.lookup(st, t)
+			g.havocTag(st, t)
+			nw := st.mem[t]
+			g.sc.emit("(assert (forall ((r Ref)) (! (=> (< (rb r) %s) (= (select %s r) (select %s r))) :pattern ((select %s r)))))", g.oldFrontier, nw, cur, nw)
+			g.sc.setStep(nw, cur, g.oldFrontier)
+		}
+		return nil
+	}
 	x, err := ParseExpr(loc)
 	if err != nil {
 		return err
@@ -1289,10 +1309,12 @@ func isPhiOfFresh(v ssa.Value) bool {
 			return x.Value == nil
 		case *ssa.Call:
 			if b, isB := x.Call.Value.(*ssa.Builtin); isB && b.Name() == "append" {
-				return true
+				return ok(x.Call.Args[0]) // append writes in place when the capacity suffices: the base must be fresh too
 			}
 		case *ssa.MakeSlice:
 			return true
+		case *ssa.Slice:
+			return ok(x.X)
 		}
 		return false
 	}
